@@ -56,7 +56,7 @@ def run(ck, tier, seed):
         "a bytecode is identified by executing it: the version constant and derived locals appear in the result, which is compared with a fresh OptNone compilation of that version (path parameter id = 'seven')",
         "contract: a caller that changes a definition calls InvalidateCache (or RecordDeoptimization for specialisations); between the change and that call stale code may be served",
         "virtual clock by textual redirection of time.Now/Since in pkg/jit/jit.go; tick = 1 s (Duration arithmetic is exact, so `> window` is the integer comparison of the model)",
-        "the specialisation cap is the code's constant 5; configurations whose TypeMaps could exceed it are model-checked only",
+        "the specialisation cap is the code's constant 5; random walks with seven type maps on one route reach it, which entry is evicted is the code's business - what is handed out afterwards must still be code of the current definition",
     ]
     # design model
     b = dict(now=3, prof=3, hits=1, hist=0, depth=0)
@@ -74,6 +74,10 @@ def run(ck, tier, seed):
         sim=400 if quick else 6000, seed=seed)
     gen(ck, "sim-2routes-hot", consts(("a", "b"), maxspecs=5, maxver=2, thr=2, win=1, hist=True), dict(now=0, prof=0, hits=0, hist=0, depth=20),
         sim=400 if quick else 6000, seed=seed + 3)
+    # seven type maps on one route: the cap of 5 specialisations is reached, entries are evicted, and an evicted
+    # combination is asked for again after the definition changed
+    gen(ck, "sim-1route-7typemaps", consts(("a",), tms=("T1", "T2", "T3", "T4", "T5", "T6", "T7"), maxspecs=5, maxver=3, thr=4, win=1, hist=True),
+        dict(now=0, prof=0, hits=0, hist=0, depth=30), sim=300 if quick else 4000, seed=seed + 5)
     ck.cov["exhaustive"] = True
     work = vf.scratch("verif-c15-")
     path = os.path.join(work, "cases.ndjson")
